@@ -34,6 +34,15 @@ CHECKS = {
             "datetime.date.toordinal."),
 }
 
+CHECKS["C20"] = ("DESIGN.md C20",
+    "For each of 56 seed programs and every token boundary (also before the first and after the "
+    "last token) the separator is a symbolic layout string (whitespace, CR, LF, # comment) of "
+    "length <= 2 (thorough 3); every token's line must equal 1 + the number of LF before its first "
+    "character, where the count is a z3 term over the separator characters. Planted faults "
+    "(undefined name, error statement, division by zero, type error, syntax fault, fault inside a "
+    "called function, fault inside a user module) behind symbolic layout: error positions, stack "
+    "trace entry and module name are checked the same way.")
+
 NA = {}
 
 
